@@ -22,6 +22,12 @@
  *   drain                                extract until no command is returned
  *   finish                               until the socket queue is empty: read, drain  (bounded)
  *   line <hex>                           console: add_console_line() with these bytes (+ NUL)
+ *   cb <k> err|dest                      the k-th callback into the user object (0-based, counted over the
+ *                                        connection) raises an LPC error / destructs the user object
+ *
+ * Callbacks: the arguments are logged, then the scripted outcome happens exactly as LPC code would cause it:
+ * `error()` (longjmp to the innermost error context) or `destruct_object()`.  get_user_data() runs inside an
+ * error context like the one backend() provides around process_io(); leaving it through an error prints `err`.
  */
 #define _GNU_SOURCE
 #include <config.h>
@@ -33,9 +39,12 @@
 struct svalue_s;
 struct object_s;
 struct svalue_s *c13_apply (const char *fun, struct object_s *ob, int num_arg, int where);
+struct svalue_s *c13_safe_apply (const char *fun, struct object_s *ob, int num_arg, int where);
 #define apply c13_apply
+#define safe_apply c13_safe_apply
 #include "src/comm.c"
 #undef apply
+#undef safe_apply
 extern svalue_t *apply (const char *, object_t *, int, int);	/* the real one (src/apply.c) */
 
 #include "vh.h"
@@ -115,6 +124,21 @@ ssize_t send (int fd, const void *buf, size_t len, int flags)
 }
 
 /* ---- what the user object receives ---------------------------------------- */
+#define C13_MAXCB 4096
+static unsigned char cb_outcome[C13_MAXCB];	/* 0 ok, 1 err, 2 dest */
+static int cb_count = 0;
+
+/* the scripted outcome of the callback that has just received its arguments */
+static void cb_done (struct object_s *ob)
+{
+  int k = cb_count++;
+  int what = k < C13_MAXCB ? cb_outcome[k] : 0;
+  if (what == 1)
+    error ("C13 scripted error in callback %d\n", k);
+  if (what == 2)
+    destruct_object ((object_t *) ob);
+}
+
 static svalue_t *(*real_apply) (const char *, object_t *, int, int) = apply;
 
 struct svalue_s *c13_apply (const char *fun, struct object_s *ob, int num_arg, int where)
@@ -130,28 +154,62 @@ struct svalue_s *c13_apply (const char *fun, struct object_s *ob, int num_arg, i
           else
             vh_out ("input ?");
           pop_n_elems (num_arg);
+          cb_done (ob);
           return 0;
         }
       if (!strcmp (fun, APPLY_TERMINAL_TYPE) && num_arg == 1 && sp->type == T_STRING)
         {
           out_hex ("cb ttype", (unsigned char *) sp->u.string, strlen (sp->u.string));
           pop_n_elems (num_arg);
+          cb_done (ob);
           return 0;
         }
       if (!strcmp (fun, APPLY_TELNET_SUBOPTION) && num_arg == 1 && sp->type == T_STRING)
         {
           out_hex ("cb subopt", (unsigned char *) sp->u.string, strlen (sp->u.string));
           pop_n_elems (num_arg);
+          cb_done (ob);
           return 0;
         }
       if (!strcmp (fun, APPLY_WINDOW_SIZE) && num_arg == 2)
         {
           vh_out ("cb naws %ld %ld", (long) (sp - 1)->u.number, (long) sp->u.number);
           pop_n_elems (num_arg);
+          cb_done (ob);
           return 0;
         }
     }
   return real_apply (fun, ob, num_arg, where);
+}
+
+/* safe_apply() of src/apply.c, with the apply routed through c13_apply */
+struct svalue_s *c13_safe_apply (const char *fun, struct object_s *ob, int num_arg, int where)
+{
+  svalue_t *ret;
+  error_context_t econ;
+  if (!save_context (&econ))
+    {
+      pop_n_elems (num_arg);
+      return 0;
+    }
+  econ.save_sp = sp - num_arg;
+  if (!setjmp (econ.context))
+    {
+      if (!(((object_t *) ob)->flags & O_DESTRUCTED))
+        ret = c13_apply (fun, ob, num_arg, where);
+      else
+        {
+          pop_n_elems (num_arg);
+          ret = 0;
+        }
+    }
+  else
+    {
+      restore_context (&econ);
+      ret = 0;
+    }
+  pop_context (&econ);
+  return ret;
 }
 
 /* ---- the connection -------------------------------------------------------- */
@@ -267,7 +325,21 @@ static void do_read (void)
 {
   if (!alive ())
     return;
-  get_user_data (c13_ip, 0);
+  /* the recovery point backend() provides around process_io() */
+  error_context_t econ;
+  save_context (&econ);
+  if (!setjmp (econ.context))
+    {
+      eval_cost = CONFIG_INT (__MAX_EVAL_COST__);
+      get_user_data (c13_ip, 0);
+      pop_context (&econ);
+    }
+  else
+    {
+      restore_context (&econ);
+      pop_context (&econ);
+      vh_out ("err");
+    }
   after_step ();
 }
 
@@ -324,6 +396,14 @@ static int c13_cmd (char *line)
         return 0;
       make_user (kind);
       after_step ();
+      return 1;
+    }
+  if (!strncmp (line, "cb ", 3))
+    {
+      int k = -1;
+      char what[16] = "";
+      if (sscanf (line + 3, "%d %15s", &k, what) == 2 && k >= 0 && k < C13_MAXCB)
+        cb_outcome[k] = !strcmp (what, "err") ? 1 : !strcmp (what, "dest") ? 2 : 0;
       return 1;
     }
   if (!c13_ip)
